@@ -189,15 +189,17 @@ theorem dict_step_delta (p : DupPolicy) (α : String → R) (β₁ β₂ lam : R
   dictNdl_step_delta p α β₁ β₂ lam W e e' hp
 
 /-- **one further `ndl.ndl` step vs the matrix path of `activation()`**: continuing
-    the MODEL of `ndl.ndl` (either method, any `n_outcomes_per_job ≥ 1`,
-    `events_per_temporary_file ≥ 2`) from the labelled matrix `w` over one event
+    the MODEL of `ndl.ndl` (either method, legal chunking arguments `hcfg : CfgOK`:
+    `2 ≤ events_per_temporary_file < 2³²`, `1 ≤ n_outcomes_per_job`, OpenMP
+    `#outcome labels + n_outcomes_per_job < 2³²`) from the labelled matrix `w` over one event
     `e` (policy-processed: `e'`, all of whose cues are labels of `w`) changes the
     weight between the `i`-th outcome and cue `c` by
     `multiplicity(c) · α · β · (target − col[i])`, `col` being the column the
     MODEL of `activation(…, remove_duplicates=False)` returns for the cues of `e'` -/
-theorem ndl_step_delta (cfg : NdlCfg) (hper : 2 ≤ cfg.perFile) (hjob : 1 ≤ cfg.perJob) (alpha β₁ β₂ lam : R)
+theorem ndl_step_delta (cfg : NdlCfg) (alpha β₁ β₂ lam : R)
     (w : LW R) (hno : w.outcomes.Nodup) (hnc : w.cues.Nodup)
-    (e e' : Event String String) (hp : applyPolicy cfg.policy e = some e')
+    (e e' : Event String String) (hcfg : CfgOK cfg (mergedOutcomes w [e]).length)
+    (hp : applyPolicy cfg.policy e = some e')
     (hfit : Fits32With w [e]) (hin : ∀ c ∈ e'.cues, c ∈ w.cues) :
     ∃ r col, ndlModel Generated.pyMagic Generated.pyVersion cfg alpha β₁ β₂ lam (some w) [e] = .ok (r, 1) ∧
       activationMatrix .keep false w [e'.cues] = .ok [col] ∧
@@ -206,8 +208,8 @@ theorem ndl_step_delta (cfg : NdlCfg) (hper : 2 ≤ cfg.perFile) (hjob : 1 ≤ c
           = (e'.cues.count c : R) * (alpha *
               (if w.outcomes[i] ∈ e'.outcomes then β₁ * (lam - col.getD i 0)
                else β₂ * (0 - col.getD i 0))) :=
-  ndlModel_step_delta Generated.pyMagic Generated.pyVersion (by decide) (by decide) cfg hper hjob
-    alpha β₁ β₂ lam w hno hnc e e' hp hfit hin
+  ndlModel_step_delta Generated.pyMagic Generated.pyVersion (by decide) (by decide) cfg
+    alpha β₁ β₂ lam w hno hnc e e' hcfg hp hfit hin
 
 /-! ### non-vacuity (ℤ): a 2×3 matrix -/
 
@@ -265,8 +267,8 @@ example :
         r.get exW.outcomes[i] c - exW.get exW.outcomes[i] c
           = ((["a", "c"] : List String).count c : ℤ) * (1 *
               (if exW.outcomes[i] ∈ ["x"] then 1 * (5 - col.getD i 0) else 1 * (0 - col.getD i 0))) :=
-  ndl_step_delta ⟨.dedup, .openmp, 1, 2⟩ (by decide) (by decide) 1 1 1 5 exW (by decide) (by decide)
-    ⟨["a", "c", "c"], ["x"]⟩ ⟨["a", "c"], ["x"]⟩ (by decide +kernel)
+  ndl_step_delta ⟨.dedup, .openmp, 1, 2⟩ 1 1 1 5 exW (by decide) (by decide)
+    ⟨["a", "c", "c"], ["x"]⟩ ⟨["a", "c"], ["x"]⟩ (by decide +kernel) (by decide +kernel)
     ⟨by decide, by decide +kernel, by decide +kernel, by decide⟩ (by decide)
 
 /-! ### lemmas (not property theorems) -/
